@@ -23,21 +23,45 @@ theorem limits_in_force :
     Gen.inspectReadsThroughLimit = true ∧ Gen.ssh1BoundsMPInt = true ∧ Gen.ssh1BoundsString = true := by decide
 
 /-- READ CAP: for EVERY source — finite, or endless like /dev/zero or a pipe that is never closed — and every pattern of
-    short reads, the read loop of `Inspect` terminates, returns at most `MaxReadSize` bytes, and they are the first
-    bytes of the source. -/
+    short reads, the read loop of `Inspect` terminates having read at most `MaxReadSize + 1` bytes, keeps at most
+    `MaxReadSize` of them, and they are the first bytes of the source. -/
 theorem read_capped (src : Nat → Option Nat) (chunk : Nat → Nat) :
-    ∃ out, ReadAll.inspectInput src chunk = some out ∧ out.length ≤ Gen.maxReadSize ∧
-      out = ReadAll.pull src 0 out.length := by
-  have h := Lemmas.Robust.readAll_capped src chunk (Gen.maxReadSize + 1) 0 Gen.maxReadSize (Nat.lt_succ_self _)
-  simpa [ReadAll.inspectInput, limits_in_force.1] using h
+    ∃ out k, ReadAll.inspectInput src chunk = some out ∧ out.length ≤ Gen.maxReadSize ∧ k ≤ Gen.maxReadSize + 1 ∧
+      out = (ReadAll.pull src 0 k).take Gen.maxReadSize := by
+  obtain ⟨o, h1, h2, h3⟩ := Lemmas.Robust.readAll_capped src chunk (Gen.maxReadSize + Gen.inspectReadExtra + 1) 0
+    (Gen.maxReadSize + Gen.inspectReadExtra) (Nat.lt_succ_self _)
+  refine ⟨o.take Gen.maxReadSize, o.length, ?_, ?_, ?_, ?_⟩
+  · simp [ReadAll.inspectInput, ReadAll.inspectRead, limits_in_force.1, h1]
+  · simp [List.length_take]; omega
+  · have : Gen.inspectReadExtra = 1 := by decide
+    omega
+  · rw [← h3]
 
-/-- … and an input that ends within the cap is read completely -/
+/-- … and an input that ends within the cap is read completely and is known not to be truncated -/
 theorem read_complete (src : Nat → Option Nat) (chunk : Nat → Nat) (n : Nat) (hn : n ≤ Gen.maxReadSize)
     (hsome : ∀ i, i < n → (src i).isSome = true) (hend : src n = none) :
-    ReadAll.inspectInput src chunk = some (ReadAll.pull src 0 n) := by
-  have h := Lemmas.Robust.readAll_complete src chunk (Gen.maxReadSize + 1) 0 Gen.maxReadSize n (Nat.lt_succ_self _) hn
+    ReadAll.inspectInput src chunk = some (ReadAll.pull src 0 n) ∧ ReadAll.inspectTruncated src chunk = some false := by
+  have h := Lemmas.Robust.readAll_complete src chunk (Gen.maxReadSize + Gen.inspectReadExtra + 1) 0
+    (Gen.maxReadSize + Gen.inspectReadExtra) n (Nat.lt_succ_self _) (by omega)
     (by simpa using hsome) (by simpa using hend)
-  simpa [ReadAll.inspectInput, limits_in_force.1] using h
+  have hl : (ReadAll.pull src 0 n).length ≤ Gen.maxReadSize := Nat.le_trans (Lemmas.Robust.pull_length_le src n 0) hn
+  constructor
+  · simp [ReadAll.inspectInput, ReadAll.inspectRead, limits_in_force.1, h, List.take_of_length_le hl]
+  · simp [ReadAll.inspectTruncated, ReadAll.inspectRead, limits_in_force.1, h]
+    omega
+
+/-- TRUNCATION IS SEEN ON EVERY KIND OF SOURCE (D75 repaired): a source that holds more than `MaxReadSize` bytes — a
+    regular file, a pipe, a device — is known to be truncated from the read itself, not from what Stat says -/
+theorem truncation_seen (src : Nat → Option Nat) (chunk : Nat → Nat)
+    (hmore : ∀ i, i < Gen.maxReadSize + 1 → (src i).isSome = true) :
+    ReadAll.inspectTruncated src chunk = some true := by
+  have he : Gen.inspectReadExtra = 1 := by decide
+  obtain ⟨o, h1, h2⟩ := Lemmas.Robust.readAll_full src chunk (Gen.maxReadSize + Gen.inspectReadExtra + 1) 0
+    (Gen.maxReadSize + Gen.inspectReadExtra) (Nat.lt_succ_self _)
+    (fun i hi => by simpa using hmore i (by omega))
+  rw [he] at h1 h2
+  simp only [ReadAll.inspectTruncated, ReadAll.inspectRead, limits_in_force.1, he, if_true, h1, Option.map_some]
+  simp [h2]
 
 /-- the cap is the documented 128 MB -/
 theorem cap_value : Gen.maxReadSize = 128 * 1000 * 1000 := by decide
